@@ -25,6 +25,12 @@ CHECKS = {
         "The formula family is enumerated, the tree is quantified by the solver. A raise is a violation; a sat answer only with a concrete witness tree.",
    note="Trusted: FOL encoder (checks/fol.py), z3 4.11.2 + z3 5.1.0 re-check. Outside: formula shapes outside the family; formulas with concrete tree arguments.",
    design="§3 C09"),
+ "C07": dict(level="translation_validation", technique="translation validation: SMT (z3) equivalence of the first-order encodings of parse_isla(text) and parse_isla(unparse_isla(.)) over all tree structures, plus concrete equality/idempotence side conditions",
+   text="Translation validation: for each enumerated constraint text (core family, simplified-syntax family, one text per SMT-LIB operator token, "
+        "escape-character match expressions) F and F2 = parse(unparse(F)) are produced by the real code and z3 proves enc(F) <=> enc(F2) for all trees; "
+        "the property's concrete clauses (re-parse accepted, F2 == F, unparse(F2) == unparse(F)) are checked per program.",
+   note="Trusted: FOL encoder, z3. Outside: literal contents are enumerated (Z3's C printer / ANTLR cannot be made symbolic); texts outside the family. Ten known findings (KNOWN_FINDINGS.txt).",
+   design="§3 C07"),
 }
 NOT_APPLICABLE = {
  "C21": "needs end-to-end solve() on the shipped formalizations plus external validators (docutils, XML parser): the solver loop is a heap algorithm around Z3 calls that no engine here can encode, and the validators are not solver objects",
